@@ -190,7 +190,7 @@ def mpubSizeOk (conf : Conf) (rest : Bytes) : Bool :=
 def mpubBatch (conf : Conf) (rest : Bytes) : Mpub.Res :=
   match readLen rest with
   | none => .err .E_BAD_BODY
-  | some (_, r) => Mpub.readMPUB conf.maxMsgSize conf.maxBodySize r
+  | some (n, r) => Mpub.readMPUB conf.maxMsgSize conf.maxBodySize (r.take n.toNat)   -- the declared body only
 
 /-- Does the command instance (`ps` = the split line, `rest` = the bytes after it) have defect `d`?
 Each defect is judged on its own — no order of checks. -/
